@@ -179,3 +179,42 @@ Fixpoint core (mc:machine) {struct mc} : Prop :=
          | None => k = KSimple
          end /\ all t
      end) states.
+
+(* ---- whole histories ---- *)
+(* start() and stop() of the outermost machine *)
+Definition sp_start (mc:machine) (c:conf) : sres :=
+  let ev := Evt EV_INIT 0 in
+  let c0 := c_set_act c (m_inits mc) in
+  let '(items, c1) := sp_enter mc ev c0 in (items ++ [Cb KMEntry [] 0 ev false (m_inits mc)], c1).
+Definition sp_stop (mc:machine) (c:conf) : sres :=
+  let ev := Evt EV_EXIT 0 in
+  let '(items, c1) := sp_exit mc ev c in (Cb KMExit [] 0 ev false (c_act c1) :: items, sp_post_exit mc c1).
+
+(* the reported configuration: the active ids of the machine and, recursively, of every active submachine *)
+Fixpoint sp_snapshot (mc:machine) {struct mc} : conf -> list nat -> list (list nat * list nat) :=
+  let kidsf := map (fun st => match s_sub st with Some c => Some (sp_snapshot c) | None => None end) (m_states mc) in
+  fun c path =>
+    (path, c_act c) ::
+    flat_map (fun s => match nth s kidsf None, nth s (c_kids c) None with
+                       | Some f, Some k => f k (path ++ [s])
+                       | _, _ => []
+                       end) (c_act c).
+
+(* operations whose behaviours only observe *)
+Definition plain_op (o:op) : Prop :=
+  match o with
+  | OStart _ [] => True
+  | OStop [] => True
+  | OProcess e _ [] => e_ty e <> EV_NONE
+  | _ => False
+  end.
+
+(* what one operation does: behaviour invocations in order of occurrence, the outcome (for process_event), the new
+   configuration *)
+Definition sp_op (pol:nat) (mc:machine) (o:op) (c:conf) : list titem * option (bool * bool) * conf :=
+  match o with
+  | OStart _ _ => let '(i, c') := sp_start mc c in (rev i, None, c')
+  | OStop _ => let '(i, c') := sp_stop mc c in (rev i, None, c')
+  | OProcess e val _ => let r := sp_process pol mc e val c in (rev (o_items r), Some (o_taken r, o_rejected r), o_conf r)
+  | _ => ([], None, c)
+  end.
